@@ -60,6 +60,19 @@ def has_c(n, c):
     return And(RC(c) >= 0, LO(n) <= RC(c), RC(c) < HI(n))
 
 
+NLEAVES = Const("number_of_leaves", IntSort())
+
+
+def in_tree(t):
+    return And(t >= 0, t < NLEAVES)
+
+
+def distinct_names(NAME):
+    """the leaves of the architecture (ranks 0 .. NLEAVES-1) have pairwise different names"""
+    t, u = Ints("dt du")
+    return ForAll([t, u], Implies(And(in_tree(t), in_tree(u), Select(NAME, LEAFAT(t)) == Select(NAME, LEAFAT(u))), t == u))
+
+
 def tree_axioms(ex):
     """Well-formedness of the tree and the definitions of RC and INC, over the heap at entry."""
     NA, NN = ex.heap_arrays("nodes", ex.heap0_view())
@@ -77,12 +90,15 @@ def tree_axioms(ex):
     j = Int("wj")
     A.append(("children_ordered", ForAll([b, i, j], Implies(And(is_hier(b), i >= 0, i < j, j < m(b)), HI(ch(b, i)) <= LO(ch(b, j))), patterns=[z3.MultiPattern(ch(b, i), ch(b, j))])))
     A.append(("branch", ForAll([b], Implies(is_hier(b), And(m(b) >= 0, LO(b) <= HI(b), Implies(m(b) == 0, HI(b) == LO(b)), HEIGHT(b) >= 0)), patterns=[m(b)])))
-    A.append(("leaf", ForAll([x], Implies(is_leaf(x), And(HI(x) == LO(x) + 1, LEAFAT(LO(x)) == x, LO(x) >= 0)), patterns=[LO(x)])))
+    A.append(("leaf", ForAll([x], Implies(is_leaf(x), And(HI(x) == LO(x) + 1, LEAFAT(LO(x)) == x, LO(x) >= 0, LO(x) < NLEAVES)), patterns=[LO(x)])))
+    A.append(("ranks_are_leaves", ForAll([i], Implies(in_tree(i), And(is_leaf(LEAFAT(i)), LO(LEAFAT(i)) == i, LEAFAT(i) != NULL)), patterns=[LEAFAT(i)])))
     A.append(("ranks_nonnegative", ForAll([x], Implies(is_hier(x), LO(x) >= 0), patterns=[LO(x)])))
     A.append(("child_of_leaf_rank", ForAll([b, t], Implies(And(is_hier(b), LO(b) <= t, t < HI(b)), And(CIDX(b, t) >= 0, CIDX(b, t) < m(b), LO(ch(b, CIDX(b, t))) <= t, t < HI(ch(b, CIDX(b, t))))), patterns=[CIDX(b, t)])))
     # leaf names are unique: RL(c) is the rank of the leaf named c, or -1; RC(c) is that rank if the leaf is a Compute, else -1
     A.append(("leaf_rank", ForAll([c], Or(RL(c) == -1, And(RL(c) >= 0, is_leaf(LEAFAT(RL(c))), LO(LEAFAT(RL(c))) == RL(c), Select(NAME, LEAFAT(RL(c))) == c)), patterns=[RL(c)])))
-    A.append(("names_unique", ForAll([x], Implies(is_leaf(x), RL(Select(NAME, x)) == LO(x)), patterns=[LO(x)])))
+    # (RL is the rank of the leaf with a given name WHEN the leaf names are pairwise distinct -- a definition,
+    #  not an assumption of distinctness: that is the explicit precondition `leaf_names_are_unique` below)
+    A.append(("names_unique", Implies(distinct_names(NAME), ForAll([x], Implies(And(is_leaf(x), LEAFAT(LO(x)) == x, in_tree(LO(x))), RL(Select(NAME, x)) == LO(x)), patterns=[LO(x)]))))
     A.append(("compute_rank", ForAll([c], RC(c) == If(And(RL(c) >= 0, is_compute(LEAFAT(RL(c)))), RL(c), IntVal(-1)), patterns=[RC(c)])))
     # the statement: which leaf ranks belong to the flattened architecture of subtree b for compute c
     kid = ch(b, CIDX(b, t))
@@ -116,6 +132,7 @@ def find_contract(label, with_default):
             for nm_, ax in tree_axioms(ex):
                 c.pre("tree." + nm_, ax)
         c.pre("self_is_a_node_of_the_tree", And(s != NULL, Or(is_hier(s), is_leaf(s)), Not(And(is_hier(s), is_leaf(s)))))
+        c.pre("leaf_names_are_unique", distinct_names(ex.heap_arrays("name")[0]))
         c.decreases(HEIGHT(s))
         NAME = ex.heap_arrays("name")[0]
         found = lambda r: And(r != NULL, is_leaf(r), Select(NAME, r) == nm, LO(s) <= LO(r), LO(r) < HI(s))
@@ -180,6 +197,7 @@ def flatten_contract(label, return_fanout):
                 c.pre("tree." + nm, ax)
         s = self_.ref
         c.pre("self_is_a_hierarchical_of_the_tree", And(is_hier(s), s != NULL))
+        c.pre("leaf_names_are_unique", distinct_names(ex.heap_arrays("name")[0]))
         c.pre("a_leaf_with_the_requested_name_is_a_compute", Implies(RL(cn) >= 0, is_compute(LEAFAT(RL(cn)))))
         c.decreases(HEIGHT(s))
         res = c.result(TUP(SEQ(OBJ("?")), REAL) if return_fanout else SEQ(OBJ("?")))
@@ -227,3 +245,141 @@ def flatten_contract(label, return_fanout):
 
 flatten_contract("with_fanout", True)
 flatten_contract("nodes_only", False)
+
+
+# ==== Branch.get_nodes_of_type and Spec._get_flattened_architecture =========================================
+SP = "accelforge/frontend/spec.py"
+P.field("arch", OBJ("Hierarchical"))
+P.field("component_model", VAL)
+P.field("_evaluated", BOOL)
+P.field_owners["component_model"] = ["Leaf"]
+P.classes |= {"Spec"}
+P.assume_note("Spec._spec_eval_expressions (re-evaluation for an Einsum) is outside the contract of _get_flattened_architecture: it is verified for einsum_name=None; every leaf has a `component_model` attribute slot (hasattr is decided per class: leaves yes)")
+
+
+def nodes_of_type_contract(label, clsname, pred):
+    @P.fn(F, "Branch.get_nodes_of_type", label=label)
+    def c_nodes_of_type(c):
+        self_ = c.arg("self", OBJ("Hierarchical"))
+        t = c.arg("types", CONST(VV.ClassV(clsname)))
+        c.applies(isinstance(t, VV.ClassV) and t.name == clsname)
+        ex = c.ex
+        s = self_.ref
+        if c.mode == "verify":
+            for nm_, ax in tree_axioms(ex):
+                c.pre("tree." + nm_, ax)
+        c.pre("self_is_a_hierarchical_of_the_tree", And(is_hier(s), s != NULL))
+        c.decreases(HEIGHT(s))
+        Y = c.yields(SEQ(OBJ("?")))
+        p, q, t_ = Ints("np nq nt")
+
+        def spec(R, upto):
+            R = ex.materialize(R)
+            return [
+                ("only_such_leaves_below_in_depth_first_order", And(forall([p], Implies(And(p >= 0, p < R.n), And(at(R, p) != NULL, is_leaf(at(R, p)), pred(at(R, p)), LO(s) <= LO(at(R, p)), LO(at(R, p)) < upto)), patterns=[at(R, p)]),
+                                                                     forall([p, q], Implies(And(p >= 0, p < q, q < R.n), LO(at(R, p)) < LO(at(R, q))), patterns=[z3.MultiPattern(at(R, p), at(R, q))]))),
+                ("every_such_leaf_below", forall([t_], Implies(And(LO(s) <= t_, t_ < upto, t_ >= 0, is_leaf(LEAFAT(t_)), LO(LEAFAT(t_)) == t_, pred(LEAFAT(t_)), INTREE(t_)), mem(R, LEAFAT(t_))), patterns=[LEAFAT(t_)])),
+            ]
+
+        c.post("only_such_leaves_below_in_depth_first_order", lambda r: spec(r, HI(s))[0][1])
+        c.post("every_such_leaf_below", lambda r: spec(r, HI(s))[1][1])
+        if c.mode != "verify":
+            return
+        NA, NN = ex.heap_arrays("nodes", ex.heap0_view())
+        kids_n = Select(NN, s)
+        kid = lambda k: Select(Select(NA, s), k)
+        c.invariant("L0", lambda L: spec(L.v("__yielded__"), If(L.k < kids_n, LO(kid(L.k)), HI(s))))
+
+    return c_nodes_of_type
+
+
+INTREE = in_tree
+nodes_of_type_contract("leaves", "Leaf", lambda r: BoolVal(True))
+nodes_of_type_contract("computes", "Compute", lambda r: is_compute(r))
+
+
+P.fields["component_model"] = OPT(VAL)
+PATHS = SEQ(SEQ(OBJ("?")))
+P.assert_mode = "raise"
+
+
+def flattened_contract(label, by_name):
+    @P.fn(SP, "Spec._get_flattened_architecture", label=label)
+    def c_get_flattened(c):
+        self_ = c.arg("self", OBJ("Spec"))
+        cn = c.arg("compute_node", ELEM if by_name else CONST(None), default=None)
+        c.arg("einsum_name", CONST(None), default=None)
+        c.applies((cn is not NONE) == by_name)
+        ex = c.ex
+        c.local("found", PATHS)
+        c.local("found_names", SET(ELEM))
+        c.modifies("component_model")
+        if c.mode == "verify":
+            for nm_, ax in tree_axioms(ex):
+                c.pre("tree." + nm_, ax)
+        arch = ex.read_field(self_, "arch", heap=ex.heap0_view() if c.mode == "verify" else None)
+        a = arch.ref
+        NAME = ex.heap_arrays("name")[0]
+        c.pre("spec_is_evaluated", ex.read_field(self_, "_evaluated"))
+        c.pre("arch_is_the_root_of_the_tree", And(a != NULL, is_hier(a), LO(a) == 0, HI(a) == NLEAVES))
+        c.raises("EvaluationError", when=None)   # duplicate names (or a last path element that is not the requested compute)
+        if by_name:
+            # (for a name that no Compute has, the real code raises EvaluationError -- or IndexError when the
+            #  path comes out empty; that case is outside this contract)
+            c.pre("the_requested_compute_exists", And(RL(cn) >= 0, RL(cn) < NLEAVES, is_compute(LEAFAT(RL(cn)))))
+        p, q, t = Ints("gp gq gt")
+        if by_name:
+            c.result(SEQ(OBJ("?")))
+        else:
+            c.result(PATHS)
+
+        def path_ok(R, comp_name):
+            """R is exactly the flattened path for the compute named comp_name (the contract of _flatten for the root)"""
+            R = ex.materialize(R)
+            return And(forall([p], Implies(And(p >= 0, p < R.n), And(at(R, p) != NULL, is_leaf(at(R, p)), INC(a, LO(at(R, p)), comp_name))), patterns=[at(R, p)]),
+                       forall([p, q], Implies(And(p >= 0, p < q, q < R.n), LO(at(R, p)) < LO(at(R, q))), patterns=[z3.MultiPattern(at(R, p), at(R, q))]),
+                       forall([t], Implies(And(in_tree(t), INC(a, t, comp_name)), mem(R, LEAFAT(t))), patterns=[INC(a, t, comp_name)]),
+                       R.n > 0, Select(NAME, at(R, R.n - 1)) == comp_name)
+
+        c.post("leaf_names_are_pairwise_distinct_on_normal_return", lambda r: distinct_names(NAME))
+        if by_name:
+            c.post("the_path_of_the_requested_compute_ending_with_it", lambda r: path_ok(r, cn))
+        else:
+            def all_paths(r):
+                na_, nn_ = arrs_of(r)[0], arrs_of(r)[1]
+                path = lambda k: SeqV(VV.ObjShape("?"), Select(na_, k), Select(nn_, k))
+                k = Int("gk")
+                x = Const("gx", Ref)
+                return And(forall([k], Implies(And(k >= 0, k < r.n), Exists([x], And(is_leaf(x), is_compute(x), in_tree(LO(x)), LEAFAT(LO(x)) == x, path_ok(path(k), Select(NAME, x)))))),
+                           forall([x], Implies(And(is_leaf(x), is_compute(x), in_tree(LO(x)), LEAFAT(LO(x)) == x), Exists([k], And(k >= 0, k < r.n, Select(NAME, at(path(k), Select(nn_, k) - 1)) == Select(NAME, x))))))
+            c.post("one_path_per_compute_each_ending_with_its_compute", all_paths)
+        if c.mode != "verify":
+            return
+
+        def inv_names(L):  # for leaf in all_leaves: duplicate check
+            seq = ex.materialize(L.seq)
+            fn = L.v("found_names")
+            e = Const("ge", Elem)
+            return [("names_seen_are_distinct", forall([p, q], Implies(And(p >= 0, p < q, q < L.k), Select(NAME, at(seq, p)) != Select(NAME, at(seq, q))), patterns=[z3.MultiPattern(at(seq, p), at(seq, q))])),
+                    ("found_names_are_the_names_seen", forall([e], Select(fn.arr, e) == Exists([p], And(p >= 0, p < L.k, Select(NAME, at(seq, p)) == e)), patterns=[Select(fn.arr, e)]))]
+
+        def inv_paths(L):  # for c in compute_nodes: found.append(self.arch._flatten(c)); check the last element
+            found = L.v("found")
+            na_, nn_ = arrs_of(ex.materialize(found))
+            seq = ex.materialize(L.seq)
+            k = Int("gk2")
+            path = lambda k_: SeqV(VV.ObjShape("?"), Select(na_, k_), Select(nn_, k_))
+            return [("names_distinct", distinct_names(NAME)),
+                    ("one_checked_path_per_compute_so_far", And(found.n == L.k, forall([k], Implies(And(k >= 0, k < L.k), path_ok(path(k), at(seq, k))), patterns=[Select(nn_, k)])))]
+
+        def inv_pickle(L):  # for f in found: for n in f: n.component_model = None   (touches no list and no name)
+            return [("names_distinct", distinct_names(ex.heap_arrays("name")[0]))]
+
+        c.invariant("L0", inv_names)
+        c.invariant("L1", inv_paths)
+        c.invariant("L2", inv_pickle)
+        c.invariant("L3", inv_pickle)
+    return c_get_flattened
+
+
+flattened_contract("by_name", True)
